@@ -643,7 +643,8 @@ def is_subdir(base_path, test_path, trailing_slash=False, wildcards=False):
             test_path += '/'
 
     if wildcards:
-        return fnmatch.fnmatchcase(test_path, base_path)
+        # The base path names a directory: anything below it is a subpath.
+        return fnmatch.fnmatchcase(test_path, base_path + '*')
     else:
         return test_path.startswith(base_path)
 
